@@ -1,6 +1,7 @@
 """C06 Apply cache transparency"""
 import ecache
 import edm
+import ekey
 import eevent
 import tables
 import esubst
@@ -27,6 +28,11 @@ def run(ctx):
     n = ecache.check_hit_equals_miss(ctx, F)
     ctx.floor("E-CACHE.hit", "functions with a hit path and a miss path", n, 24)
     edm.run(ctx, F)
+    ctx.explain("E-CACHE.key: EntryGuard::set / get / clear / is_occupied and CountPair::new are interpreted on a model entry: get returns "
+                "the stored values exactly for the stored operator, operand lists (position by position, both kinds) and value counts, "
+                "None for every single-component deviation, for a fresh entry, after clear() and for a key replaced by a second set().")
+    nk = ekey.run(ctx, F)
+    ctx.floor("E-CACHE.key", "interpreted get / set sessions", nk, 15)
     for kind, fid, op, opn in (
             (tables.BDD, "oxidd_rules_bdd::simple::terminal_bin", "oxidd_rules_bdd::simple::BDDOp", "oxidd_rules_bdd::simple::Operation"),
             (tables.TDD, "oxidd_rules_tdd::terminal_bin", "oxidd_rules_tdd::TDDOp", "oxidd_rules_tdd::Operation"),
